@@ -287,7 +287,24 @@ impl PyOpeningHours {
 
     #[pyo3()]
     fn __repr__(&self) -> String {
-        format!("OpeningHours({:?})", self.inner.to_string())
+        // Same quoting as `{:?}`, restricted to the escapes that are valid in a Python string
+        // literal (eg. not `\u{301}`).
+        let mut res = String::from("OpeningHours(\"");
+
+        for c in self.inner.to_string().chars() {
+            match c {
+                '"' => res.push_str("\\\""),
+                '\\' => res.push_str("\\\\"),
+                '\n' => res.push_str("\\n"),
+                '\r' => res.push_str("\\r"),
+                '\t' => res.push_str("\\t"),
+                c if c.is_control() => res.push_str(&format!("\\x{:02x}", c as u32)),
+                c => res.push(c),
+            }
+        }
+
+        res.push_str("\")");
+        res
     }
 }
 
